@@ -249,7 +249,8 @@ func (g *c02Gen) next(prefix string) *c02Op {
 		"eval-code", "call-fn-value", "let-shadow-closure", "let-shadow-closure-fn", "conj-set-multi",
 		"marshal-error", "closure-from-apply", "closure-from-map", "closure-from-swap", "assoc-vec-end",
 		"assoc-in-empty", "assoc-in-empty2", "update-in-empty", "unbase64", "base64-roundtrip",
-		"def-fn-with-meta", "json-decode-proto-map", "json-decode-proto-vec", "merge-small-big", "fn-meta-shared"}
+		"def-fn-with-meta", "json-decode-proto-map", "json-decode-proto-vec", "merge-small-big", "fn-meta-shared",
+		"first-nested", "nth-nested", "get-in-nested", "get-nested", "vals", "keys", "apply-vector", "apply-list", "apply-hash-map"}
 	weights := []int{8, 3, 2, 6, 2, 5, 2, 2, 2, 2, 1, 1, 1, 3, 3, 2, 1, 1, 1, 1, 1, 1, 2, 1, 1, 2, 3, 2, 1, 4, 3, 2, 2, 2, 2,
 		3, 2, 2, 3, 2, 2, 2, 2,
 		2, 1, 1,
@@ -257,7 +258,8 @@ func (g *c02Gen) next(prefix string) *c02Op {
 		2, 2, 3, 1, 1,
 		2, 2, 2, 1, 2,
 		2, 1, 1, 2, 1,
-		2, 2, 1, 2, 1}
+		2, 2, 1, 2, 1,
+		2, 2, 2, 1, 1, 1, 2, 1, 1}
 	kind := kinds[g.tp.Weighted(LaneWork, weights)]
 	var src, typ string
 	expectParent := ""
@@ -267,6 +269,33 @@ func (g *c02Gen) next(prefix string) *c02Op {
 	lst := func() *c02Val { v := g.pick("list"); parents = append(parents, v); return v }
 	mp := func() *c02Val { v := g.pick("map"); parents = append(parents, v); return v }
 	switch kind {
+	case "first-nested":
+		// a value stored inside another collection is taken out (and extended by later operations)
+		v := g.pick("vec2")
+		parents = append(parents, v)
+		src, typ = "(first "+v.Name+")", "vec"
+	case "nth-nested":
+		v := g.pick("vec2")
+		parents = append(parents, v)
+		src, typ = "(nth "+v.Name+" 1)", "vec"
+	case "get-in-nested":
+		v := g.pick("map2")
+		parents = append(parents, v)
+		src, typ = "(get-in "+v.Name+" [:m :v])", "vec"
+	case "get-nested":
+		v := g.pick("map2")
+		parents = append(parents, v)
+		src, typ = "(get "+v.Name+" :m)", "map"
+	case "vals":
+		src, typ = "(vals "+mp().Name+")", "list"
+	case "keys":
+		src, typ = "(keys "+mp().Name+")", "list"
+	case "apply-vector":
+		src, typ = "(apply vector "+seq().Name+")", "vec"
+	case "apply-list":
+		src, typ = "(apply list "+k+" "+seq().Name+")", "list"
+	case "apply-hash-map":
+		src, typ = "(apply hash-map :k"+k+" "+k+" (list :a "+vec().Name+"))", "map"
 	case "def-fn-with-meta":
 		// a function that carries a pool map as metadata is bound to a name
 		src, typ = "(do (def zz-fn-"+k+" (with-meta (fn [x] x) "+mp().Name+")) (meta zz-fn-"+k+"))", "map"
